@@ -665,25 +665,28 @@ class DataFlow:
         return out
 
     def _reaches_from_header(self, header: int, use: int, di: int) -> bool:
-        """Does def `di` flow header -> use without being killed (walk inside reaching sets)?"""
-        seen = set()
-        stack = [header]
+        """Is there a path header -> ... -> use inside the loop on which `var` is not strongly
+        redefined (the read in `use` happens before any definition made by `use` itself)?"""
+        var = self.defs[di].var
+        seen: set[int] = set()
+        stack = [s for s in self.cfg.nodes[header].succ if header in self.cfg.nodes[s].loops]
+        if use == header:
+            return True
         while stack:
             n = stack.pop()
             if n in seen:
                 continue
             seen.add(n)
-            if n != header and di not in self.IN[n]:
-                continue
-            if n == use and n != header:
+            if n == use:
                 return True
-            if di in self.OUT[n] or n == header:
-                for s in self.cfg.nodes[n].succ:
-                    if header in self.cfg.nodes[s].loops or s == header:
-                        if s == use and di in self.IN[s]:
-                            return True
-                        stack.append(s)
-        return use == header
+            if n == header:
+                continue
+            if any(self.defs[j].var == var and self.defs[j].strong for j in self.node_defs.get(n, [])):
+                continue
+            for s2 in self.cfg.nodes[n].succ:
+                if header in self.cfg.nodes[s2].loops:
+                    stack.append(s2)
+        return False
 
 
 @dataclass
